@@ -2,8 +2,9 @@
 (* code -> spec: recorded executions of real module classes built from a layout (catalogue or random) must be    *)
 (* behaviours of RWHandler.  Every event carries its input and the projected state observed afterwards (cache,   *)
 (* hardware, writeDict, hardware calls with arguments, announced updates per key, reply).  The intended design   *)
-(* (no deviation) is tried first; an event that only a deviation of the pinned code explains records the          *)
-(* smallest such set in `devs`:                                                                                   *)
+(* (no deviation) is tried first; an event that only a deviation explains records the smallest such set in       *)
+(* `devs`.  MaskErr, ReadKeyNoParam, WriteNone: the code before b52e15f / 7127502 / 0678858 (findings fixed: a    *)
+(* trace that needs one is a VIOLATION); RegistryLeak: still true of the code (open finding):                     *)
 (*   Dev MaskErr        CommonReadHandler answers a refused hardware value with the stale value, readerror wiped  *)
 (*   Dev ReadKeyNoParam ReadHandler / CommonReadHandler keys that are no parameter are accepted                   *)
 (*   Dev WriteNone      WriteHandler: fn returning None announces a WrongType error before the value              *)
